@@ -417,15 +417,17 @@ def phraseTyped (sp : Spec) : Except Crash (List El × List El × Str) := do
   | some i => processIntPhrase i s4.1 s4.2
   | none => pure (s4.1, s4.2, [])
 
+/-- realization of a child of the S: the tokens of the VP, or the child's own -/
+def selToks (vpToks : List Tok) : El → List Tok
+  | .vp => vpToks
+  | e => e.toks
+
 /-- realization of the children of the S: the VP pronominalizes its flagged complements, conjugates, places the
     pronouns on ITS OWN flat list; the S only removes empty realizations -/
 def phraseReal (refl : Bool) (sel vp : List El) : Except Crash (List Tok) := do
   let toks ← realVPToks refl (pronominalizeVP vp)
   let vpToks ← placePronouns refl (removeEmpty toks)
-  let all : List Tok := sel.flatMap (fun e => match e with
-    | .vp => vpToks
-    | e => e.toks)
-  pure (removeEmpty all)
+  pure (removeEmpty (sel.flatMap (selToks vpToks)))
 
 /-- `S(subj, VP(V, comps…)).typ(typ).real()`: the flat list of terminals and what `.a(..)` appends to the last one -/
 def phraseToks (sp : Spec) : Except Crash (List Tok × Str) := do
